@@ -158,7 +158,22 @@ type Protected struct {
 	Exclusive bool
 }
 
+// ObjInv is an object invariant over immutable fields, established by the only constructor of the type.
+type ObjInv struct {
+	Type   string   // struct type name (in the spec file's package)
+	Var    string   // name of the object in the expression
+	Ctor   string   // constructor function (same package)
+	Fields []string // "T.f" fields the invariant reads (all must be immutable)
+	Text   string
+	E      Expr
+	Line   int
+	Pkg    string
+	SF     *SpecFile
+	added  bool
+}
+
 type SpecFile struct {
+	ObjInvs     []*ObjInv
 	Protected   []Protected
 	Immutable   []string // "T.f" fields never written after construction
 	GhostFields []*GhostField
@@ -592,7 +607,7 @@ func (p *parser) parsePrimary() Expr {
 var clauseKeywords = map[string]bool{
 	"func": true, "interface": true, "requires": true, "ensures": true, "modifies": true,
 	"let": true, "loop": true, "invariant": true, "ghost": true, "axiom": true, "lemma": true,
-	"table": true, "import": true, "flag": true, "assert": true, "external": true, "loopmodifies": true, "when": true, "ghostfield": true, "immutable": true, "protected": true,
+	"table": true, "import": true, "flag": true, "assert": true, "external": true, "loopmodifies": true, "when": true, "ghostfield": true, "immutable": true, "protected": true, "objinv": true,
 }
 
 type rawClause struct {
@@ -829,6 +844,24 @@ func readSpecFile(path string, pkgPath string) (*SpecFile, error) {
 				for _, f := range splitTop(t[:i]) {
 					sf.Protected = append(sf.Protected, Protected{Field: strings.TrimSpace(f), Mu: muf, Exclusive: excl})
 				}
+				cur, curLoop = nil, nil
+			case "objinv":
+				// objinv T(h) by Ctor over T.f, U.g: expr
+				t := rc.text
+				ci := strings.Index(t, ":")
+				bi := strings.Index(t, " by ")
+				oi := strings.Index(t, " over ")
+				pi := strings.IndexByte(t, '(')
+				if ci < 0 || bi < 0 || oi < bi || ci < oi || pi < 0 || pi > bi {
+					panic(fmt.Errorf("%s:%d: objinv T(h) by Ctor over T.f, ...: expr", path, rc.line))
+				}
+				oiv := &ObjInv{Type: strings.TrimSpace(t[:pi]), Var: strings.TrimSuffix(strings.TrimSpace(t[pi+1:bi]), ")"), Ctor: strings.TrimSpace(t[bi+4 : oi]),
+					Text: strings.TrimSpace(t[ci+1:]), Line: rc.line, Pkg: pkgPath, SF: sf}
+				for _, f := range splitTop(t[oi+6 : ci]) {
+					oiv.Fields = append(oiv.Fields, strings.TrimSpace(f))
+				}
+				oiv.E = mustExpr(rc, t[ci+1:])
+				sf.ObjInvs = append(sf.ObjInvs, oiv)
 				cur, curLoop = nil, nil
 			case "immutable":
 				for _, f := range splitTop(rc.text) {
